@@ -10,3 +10,6 @@ package l4ssh
 //@ implements[C06] (m github.com/mholt/caddy-l4/layer4.ConnMatcher) Match
 //@ ensures[C14] err == nil ==> matched == (old(bytes(cx.buf[cx.offset:cx.offset+4])) == "SSH-")
 //@ ensures[C06] err != nil ==> !matched
+
+//@ ensures[C06] err == nil || err == layer4.ErrConsumedAllPrefetchedBytes
+//@ ensures[C06] (err == layer4.ErrConsumedAllPrefetchedBytes) == (old(avail(cx)) < 4)
